@@ -79,6 +79,12 @@ CHECKS = {
         text="For each enumerated well-formed parent pre-state and each public child-list operation, CrossHair executes the real method with the index (range -7..7) and item selectors as solver variables and must confirm over all paths that the local invariant holds afterwards and that a raising operation changed nothing. One inductive step from any valid local state covers edit histories of any length because the invariant is local to a (parent, children) pair. Counterexamples are re-run in CPython.",
         note="Pre-states: 7 parent kinds quick / 20 thorough, built with the real constructors; 10 candidate item kinds; index -7..7. 'Not confirmed' counts as inconclusive. Trusted: CrossHair, z3.",
         ref="5/C14"),
+    "C19": dict(
+        level="translation_validation", engine="fsym",
+        technique="SMT (non-linear real arithmetic) on the symbolically executed TL kernel and PSyAD-generated adjoint: z3 decides <Ax,y> = <x,A*y> for all active x, y and all passive data, per array extent; coefficient-wise fallback after a solver-checked linearity lemma",
+        text="Real psyclone.psyad.tl2ad.generate_adjoint_str on a generated family of tangent-linear kernels (every loop header - unit/strided/negative/literal/zero-trip - crossed with every assignment form - increments, overwrites, negations, divisions by passive data, scalar accumulations, active temporaries, offsets - plus straight-line, branch-on-passive-data and multi-loop kernels). The TL routine and the adjoint are executed symbolically over exact reals with the active variables x (TL) and y (adjoint) and all passive coefficients as solver variables; for each extent n = 0..E (or the literal extent) the difference of the two inner products is normalised to a sum of monomials and z3 decides that it is zero for all values; it also decides that passive data is untouched and that the adjoint stays inside the declared bounds. Witnesses are replayed by a generated driver that evaluates both inner products with gfortran (bounds checking on).",
+        note="Bounds: extents n = 0..4 (quick) / 0..5 (thorough) enumerated, literal extent 10; all values symbolic; exact arithmetic (rounding outside the claim). The PSyAD-generated test harness is not validated. Trusted: fparser2, z3, fsym, gfortran for replay.",
+        ref="5/C19"),
     "C28": dict(
         level="model_checking", engine="fsym",
         technique="SMT over path-guarded PreStart/PostEnd call events of the symbolically executed instrumented text: z3 decides, for all inputs and all paths within K unrollings, that region depth counters stay in {0,1}, nest LIFO and return to 0",
